@@ -36,37 +36,168 @@ func objParam(t types.Type, d string) (ptr, ok bool) {
 	return ptr, true
 }
 
-func basicConv(t types.Type, arg string) (string, bool) {
-	if it, ok := t.Underlying().(*types.Interface); ok && it.Empty() {
-		return "extraAny(&in, " + arg + ")", true // string, caller-owned []byte, number or nil
-	}
-	if sl, ok := t.Underlying().(*types.Slice); ok {
-		if eb, ok := sl.Elem().Underlying().(*types.Basic); ok && eb.Kind() == types.Byte {
-			return "extraBytes(&in, " + arg + ")", true // a fresh buffer owned by the caller
+// typeExpr prints a type as the generated file can name it: basic types, error,
+// exported named types of the four packages (import recorded in need), and
+// pointers, slices and plain function types over those. Anything else (types
+// of other packages, unexported types, maps, channels, structs) is refused.
+func typeExpr(t types.Type, need map[string]bool) (string, bool) {
+	switch x := t.(type) {
+	case *types.Basic:
+		if x.Info()&types.IsUntyped != 0 || x.Kind() == types.UnsafePointer || x.Kind() == types.Invalid {
+			return "", false
 		}
-		if eb, ok := sl.Elem().(*types.Basic); ok && eb.Kind() == types.String {
-			if _, plain := t.(*types.Slice); plain {
-				return "extraStrs(" + arg + ")", true // a batch
+		return x.Name(), true
+	case *types.Named:
+		o := x.Obj()
+		if x.TypeArgs() != nil && x.TypeArgs().Len() > 0 {
+			return "", false
+		}
+		if o.Pkg() == nil {
+			return o.Name(), true // error
+		}
+		for d := range mainType {
+			if o.Pkg().Path() == modPath+"/"+d && o.Exported() {
+				need[d] = true
+				return "gocvss" + d + "." + o.Name(), true
 			}
 		}
 		return "", false
-	}
-	b, ok := t.Underlying().(*types.Basic)
-	if !ok {
-		return "", false
-	}
-	tn := types.TypeString(t, func(p *types.Package) string { return "gocvss" + p.Name()[len(p.Name())-2:] })
-	switch {
-	case b.Kind() == types.String:
-		return fmt.Sprintf("%s(%s)", tn, arg), true
-	case b.Kind() == types.Bool:
-		return fmt.Sprintf("%s(%s == \"true\")", tn, arg), true
-	case b.Info()&types.IsInteger != 0:
-		return fmt.Sprintf("%s(extraInt(%s))", tn, arg), true
-	case b.Info()&types.IsFloat != 0:
-		return fmt.Sprintf("%s(extraFloat(%s))", tn, arg), true
+	case *types.Pointer:
+		e, ok := typeExpr(x.Elem(), need)
+		return "*" + e, ok
+	case *types.Slice:
+		e, ok := typeExpr(x.Elem(), need)
+		return "[]" + e, ok
+	case *types.Signature:
+		if x.Variadic() || x.TypeParams() != nil || x.Recv() != nil {
+			return "", false
+		}
+		var ps, rs []string
+		for i := 0; i < x.Params().Len(); i++ {
+			e, ok := typeExpr(x.Params().At(i).Type(), need)
+			if !ok {
+				return "", false
+			}
+			ps = append(ps, e)
+		}
+		for i := 0; i < x.Results().Len(); i++ {
+			e, ok := typeExpr(x.Results().At(i).Type(), need)
+			if !ok {
+				return "", false
+			}
+			rs = append(rs, e)
+		}
+		out := "func(" + strings.Join(ps, ", ") + ")"
+		if len(rs) > 0 {
+			out += " (" + strings.Join(rs, ", ") + ")"
+		}
+		return out, true
 	}
 	return "", false
+}
+
+// basicConv returns the Go expression that turns the textual argument into a
+// value of type t, and the kind the plan generator knows it by.
+func basicConv(t types.Type, arg string, need map[string]bool) (expr, kind string, ok bool) {
+	if it, isI := t.Underlying().(*types.Interface); isI && it.Empty() {
+		return "extraAny(&in, " + arg + ")", "any", true // string, caller-owned []byte, number or nil
+	}
+	if sl, isS := t.Underlying().(*types.Slice); isS {
+		if eb, isB := sl.Elem().Underlying().(*types.Basic); isB && eb.Kind() == types.Byte {
+			if _, plain := sl.Elem().(*types.Basic); plain {
+				return "extraBytes(&in, " + arg + ")", "bytes", true // a fresh buffer owned by the caller
+			}
+		}
+		if eb, isB := sl.Elem().(*types.Basic); isB && eb.Kind() == types.String {
+			return "extraStrs(" + arg + ")", "strs", true // a batch
+		}
+		return "", "", false
+	}
+	if sig, isF := t.Underlying().(*types.Signature); isF {
+		// a callback: nil, or a function that does nothing and returns zero values
+		tn, ok := typeExpr(t, need)
+		if !ok {
+			return "", "", false
+		}
+		var ps, rs []string
+		for i := 0; i < sig.Params().Len(); i++ {
+			e, ok := typeExpr(sig.Params().At(i).Type(), need)
+			if !ok {
+				return "", "", false
+			}
+			ps = append(ps, "_ "+e)
+		}
+		for i := 0; i < sig.Results().Len(); i++ {
+			e, ok := typeExpr(sig.Results().At(i).Type(), need)
+			if !ok {
+				return "", "", false
+			}
+			rs = append(rs, fmt.Sprintf("r%d %s", i, e))
+		}
+		lit := "func(" + strings.Join(ps, ", ") + ")"
+		if len(rs) > 0 {
+			lit += " (" + strings.Join(rs, ", ") + ")"
+		}
+		lit += " { return }"
+		return fmt.Sprintf("func() %s { if %s == \"nil\" { return nil }; return (%s)(%s) }()", tn, arg, tn, lit), "func", true
+	}
+	{
+		// an options struct of the library (by value or by pointer): filled from
+		// a JSON object over its exported fields of basic types
+		st, ptr := t, false
+		if p, isP := t.(*types.Pointer); isP {
+			st, ptr = p.Elem(), true
+		}
+		if n, isN := st.(*types.Named); isN {
+			if sx, isS := n.Underlying().(*types.Struct); isS {
+				tn, ok := typeExpr(n, need)
+				if !ok {
+					return "", "", false
+				}
+				var fields []string
+				for i := 0; i < sx.NumFields(); i++ {
+					fl := sx.Field(i)
+					fb, isB := fl.Type().Underlying().(*types.Basic)
+					if !fl.Exported() || !isB || fl.Embedded() {
+						continue
+					}
+					switch {
+					case fb.Kind() == types.String:
+						fields = append(fields, fl.Name()+"=string")
+					case fb.Kind() == types.Bool:
+						fields = append(fields, fl.Name()+"=bool")
+					case fb.Info()&types.IsInteger != 0:
+						fields = append(fields, fl.Name()+"=int")
+					case fb.Info()&types.IsFloat != 0:
+						fields = append(fields, fl.Name()+"=float")
+					}
+				}
+				if ptr {
+					return fmt.Sprintf("extraJSONPtr[%s](%s)", tn, arg), "json:" + strings.Join(fields, ","), true
+				}
+				return fmt.Sprintf("extraJSON[%s](%s)", tn, arg), "json:" + strings.Join(fields, ","), true
+			}
+		}
+	}
+	b, isB := t.Underlying().(*types.Basic)
+	if !isB {
+		return "", "", false
+	}
+	tn, ok := typeExpr(t, need)
+	if !ok {
+		return "", "", false
+	}
+	switch {
+	case b.Kind() == types.String:
+		return fmt.Sprintf("%s(%s)", tn, arg), "string", true
+	case b.Kind() == types.Bool:
+		return fmt.Sprintf("%s(%s == \"true\")", tn, arg), "bool", true
+	case b.Info()&types.IsInteger != 0:
+		return fmt.Sprintf("%s(extraInt(%s))", tn, arg), "int", true
+	case b.Info()&types.IsFloat != 0:
+		return fmt.Sprintf("%s(extraFloat(%s))", tn, arg), "float", true
+	}
+	return "", "", false
 }
 
 // genExtraAPI returns the source of verifsim/worker/extra_api.go.
@@ -91,6 +222,7 @@ func genExtraAPI(pkgs map[string]*types.Package) (string, int) {
 				return
 			}
 			var args, kinds []string
+			need := map[string]bool{}
 			nObj := 0
 			for i := 0; i < sig.Params().Len(); i++ {
 				if ptr, ok := objParam(sig.Params().At(i).Type(), d); ok {
@@ -104,34 +236,12 @@ func genExtraAPI(pkgs map[string]*types.Package) (string, int) {
 					nObj++
 					continue
 				}
-				c, ok := basicConv(sig.Params().At(i).Type(), fmt.Sprintf("a[%d]", i))
+				c, kind, ok := basicConv(sig.Params().At(i).Type(), fmt.Sprintf("a[%d]", i), need)
 				if !ok {
 					return
 				}
 				args = append(args, c)
-				b, isBasic := sig.Params().At(i).Type().Underlying().(*types.Basic)
-				if _, isIface := sig.Params().At(i).Type().Underlying().(*types.Interface); isIface {
-					kinds = append(kinds, "any")
-					continue
-				}
-				if !isBasic {
-					if strings.HasPrefix(c, "extraStrs(") {
-						kinds = append(kinds, "strs")
-					} else {
-						kinds = append(kinds, "bytes")
-					}
-					continue
-				}
-				switch {
-				case b.Kind() == types.String:
-					kinds = append(kinds, "string")
-				case b.Kind() == types.Bool:
-					kinds = append(kinds, "bool")
-				case b.Info()&types.IsFloat != 0:
-					kinds = append(kinds, "float")
-				default:
-					kinds = append(kinds, "int")
-				}
+				kinds = append(kinds, kind)
 			}
 			var res []string
 			for i := 0; i < sig.Results().Len(); i++ {
@@ -148,6 +258,9 @@ func genExtraAPI(pkgs map[string]*types.Package) (string, int) {
 				recvKind = 1
 			}
 			imports[d] = true
+			for k := range need {
+				imports[k] = true
+			}
 			n++
 			fmt.Fprintf(&body, "\textraAPI = append(extraAPI, extraFn{Ver: %s, Name: %q, Recv: %d, Params: %#v, Call: func(obj unsafe.Pointer, a []string, objs []unsafe.Pointer) ([]any, [][]byte) {\n\t\tvar in [][]byte\n", d, fn.Name(), recvKind, kinds)
 			if len(res) > 0 {
